@@ -469,7 +469,7 @@ func shuffle(cs []Case, rng *Rand) {
 // execute runs the cases in waves (so that classes that keep timing out are abandoned
 // after a few 10 s penalties) and feeds each result to `on`.
 func execute(c *Ctx, cases []Case, st *runState, confirmTimeouts bool, on func(cs *Case, r *Res)) {
-	cfg := runCfg{Workers: c.Work, Timeout: watchdog, ASLimit: asLimit}
+	cfg := runCfg{Workers: c.Work, Timeout: watchdog, ASLimit: asLimit, NoHeap: !confirmTimeouts}
 	if os.Getenv("PARSERS_VERBOSE") != "" {
 		cnt := map[string]int{}
 		for i := range cases {
@@ -494,7 +494,7 @@ func execute(c *Ctx, cases []Case, st *runState, confirmTimeouts bool, on func(c
 			cases = cases[:n]
 		}
 	}
-	waves := 12
+	waves := 5
 	per := len(cases)/waves + 1
 	for lo := 0; lo < len(cases); lo += per {
 		hi := min(lo+per, len(cases))
@@ -508,7 +508,7 @@ func execute(c *Ctx, cases []Case, st *runState, confirmTimeouts bool, on func(c
 			batch = append(batch, cases[i])
 		}
 		res := RunCases(cfg, batch)
-		// a timeout must reproduce with only 2 children running before it counts (the machine may be shared)
+		// a timeout must reproduce IN ISOLATION (one child, nothing else of this run active) before it counts
 		var again []int
 		for i := range batch {
 			if res[i].Status == "timeout" || res[i].Ms > watchdog.Milliseconds() {
@@ -520,10 +520,10 @@ func execute(c *Ctx, cases []Case, st *runState, confirmTimeouts bool, on func(c
 			for k, i := range again {
 				cs2[k] = batch[i]
 			}
-			if len(cs2) > 8 { // each costs up to 10 s on 2 children
-				cs2 = cs2[:8]
+			if len(cs2) > 4 { // each costs up to 10 s, one at a time
+				cs2 = cs2[:4]
 			}
-			r2 := RunCases(runCfg{Workers: min(2, c.Work), Timeout: watchdog, ASLimit: asLimit}, cs2)
+			r2 := RunCases(runCfg{Workers: 1, Timeout: watchdog, ASLimit: asLimit}, cs2)
 			for k, i := range again {
 				if k < len(r2) {
 					res[i] = r2[k]
@@ -1154,6 +1154,9 @@ func runC09(c *Ctx) {
 		if !doneRoot[k] {
 			budget = 400
 			doneRoot[k] = true
+		}
+		if strings.HasSuffix(h.sig, ":timeout") {
+			continue // reported exactly as confirmed in isolation; shrinking under parallel load could lose that
 		}
 		shrink(c, h, func(cs *Case, r *Res) string {
 			s, ok := inDomain(cs)
